@@ -170,6 +170,17 @@ func GenTree(seed uint64, shape, names string, cs int64, maxBytes int64) Tree {
 		for i := 0; i < n; i++ {
 			t.Entries = append(t.Entries, Entry{Rel: nm(i), Size: capSize(int64(r.Intn(int(2*cs + 2))))})
 		}
+	case "manytiny":
+		// thousands of tiny files in a few dozen directories (per-file work of
+		// the application layer dominates: progress plumbing, acknowledgements)
+		n := 2500 + r.Intn(1000)
+		nd := 20 + r.Intn(30)
+		for d := 0; d < nd; d++ {
+			t.Entries = append(t.Entries, Entry{Rel: fmt.Sprintf("d%02d", d), Dir: true})
+		}
+		for i := 0; i < n; i++ {
+			t.Entries = append(t.Entries, Entry{Rel: fmt.Sprintf("d%02d/t%04d", r.Intn(nd), i), Size: int64(r.Intn(40))})
+		}
 	case "nested":
 		t.Entries = append(t.Entries, Entry{Rel: "sub", Dir: true}, Entry{Rel: "sub/deep", Dir: true}, Entry{Rel: "emptydir", Dir: true}, Entry{Rel: "sub/emptydir2", Dir: true})
 		n := 3 + r.Intn(6)
